@@ -57,7 +57,7 @@ fn gen_program(rng: &mut Rng) -> Program {
         fail_at: if fail { Some(rng.below(k + 1)) } else { None },
         fail_kind: *rng.pick(&["error-make", "error-make", "missing-column", "meta-not-a-record"]),
         appends,
-        ret: *rng.pick(&["nothing", "string", "int", "float", "bool", "list", "record"]),
+        ret: *rng.pick(&["nothing", "string", "int", "float", "bool", "list", "record", "empty-string", "empty-list", "empty-record", "zero", "false"]),
         suffix: *rng.pick(&[None, None, Some(".res"), Some(".done.x")]),
         ret_ttl: *rng.pick(&[None, None, Some("head:1"), Some("ephemeral"), Some("forever")]),
     }
@@ -101,6 +101,11 @@ fn script(p: &Program, own: &str, other: &str) -> String {
         "bool" => body.push_str("    true\n"),
         "list" => body.push_str("    [1 \"a\" {x: 2}]\n"),
         "record" => body.push_str("    {a: 1, id: $frame.id}\n"),
+        "empty-string" => body.push_str("    \"\"\n"),
+        "empty-list" => body.push_str("    []\n"),
+        "empty-record" => body.push_str("    {}\n"),
+        "zero" => body.push_str("    0\n"),
+        "false" => body.push_str("    false\n"),
         _ => {
             if p.appends.is_empty() && p.fail_at.is_none() {
                 body.push_str("    null\n");
@@ -136,6 +141,11 @@ fn expected_ret(p: &Program, trig: &str) -> Option<Value> {
         "bool" => Some(json!(true)),
         "list" => Some(json!([1, "a", {"x": 2}])),
         "record" => Some(json!({"a": 1, "id": trig})),
+        "empty-string" => Some(json!("")),
+        "empty-list" => Some(json!([])),
+        "empty-record" => Some(json!({})),
+        "zero" => Some(json!(0)),
+        "false" => Some(json!(false)),
         _ => None,
     }
 }
